@@ -543,6 +543,15 @@ func (r *Raft) Stop() {
 	}
 
 	r.state = Shutdown
+
+	// Operations that are still pending are not answered by this node any more. If the node is
+	// started again it may keep its term, and the indices that the operations were appended at
+	// may be taken by the operations of another leader: their futures must not be left behind.
+	r.operationManager.notifyLostLeaderShip(r.id, r.leaderID)
+	r.operationManager = newOperationManager(r.options.leaseDuration)
+	respond(r.configurationResponseCh, Configuration{}, ErrNotLeader)
+	r.configurationResponseCh = nil
+
 	r.applyCond.Broadcast()
 	r.commitCond.Broadcast()
 	r.readOnlyCond.Broadcast()
